@@ -216,8 +216,40 @@ static void c17_in_process(const double *x, const double *w, size_t n, size_t np
     cmb_wtdsummary_destroy(inproc.s);
 }
 
+/* a long quiet spell: one level (zero, as an idle server or an empty queue) has gathered 2^20..2^70 times the weight of the few samples that follow.
+ * Everything is non-negative, so the exact mean and variance are well conditioned and the summary must match them to rounding. */
+static void c17_quiet_spell(vr_rng *r)
+{
+    int k2 = 20 + (int)vr_below(r, 51); double W = ldexp(1.0, k2); int parts = 1 + (int)vr_below(r, 3); size_t m = 2 + vr_below(r, 7);
+    double unit = vr_chance(r, 1, 3) ? ldexp(1.0, -(int)vr_below(r, 80)) : 1.0;      /* the same picture in another unit of time */
+    double x[16], w[16]; size_t n = 0;
+    for (int p = 0; p < parts; p++) { x[n] = 0.0; w[n] = W / parts * unit; n++; }
+    for (size_t k = 0; k < m; k++) { x[n] = 1.0 + (double)vr_below(r, 100) + (vr_chance(r, 1, 2) ? 0.5 : 0.0); w[n] = 0.25 * (double)(1 + vr_below(r, 16)) * unit; n++; }
+    struct cmb_wtdsummary *s = cmb_wtdsummary_create(), *a = cmb_wtdsummary_create(), *b = cmb_wtdsummary_create(), *mg = cmb_wtdsummary_create();
+    for (size_t k = 0; k < n; k++) { cmb_wtdsummary_add(s, x[k], w[k]); cmb_wtdsummary_add(k < (size_t)parts ? a : b, x[k], w[k]); }
+    cmb_wtdsummary_merge(mg, a, b);
+    q_t sw = 0, swx = 0; for (size_t k = 0; k < n; k++) { sw += w[k]; swx += (q_t)w[k] * x[k]; }
+    q_t mu = swx / sw, s2 = 0; for (size_t k = 0; k < n; k++) s2 += (q_t)w[k] * ((q_t)x[k] - mu) * ((q_t)x[k] - mu);
+    q_t var = s2 / sw * (q_t)n / (q_t)(n - 1);
+    double lm = cmb_wtdsummary_mean(s), lv = cmb_wtdsummary_variance(s);
+    if (!(fabs(lm - (double)mu) <= 1e-11 * (double)mu)) vr_violation("C17/wtd-mean/quiet-spell", "weighted mean %.17g, exact %.17g: a level of 0 with weight 2^%d (in %d parts), then %zu samples of weight 0.25..4 (unit %g)", lm, (double)mu, k2, parts, m, unit);
+    else if (!(fabs(lv - (double)var) <= 1e-10 * (double)var)) vr_violation("C17/wtd-variance/quiet-spell", "weighted variance %.17g, exact %.17g: a level of 0 with weight 2^%d (in %d parts), then %zu samples (unit %g)", lv, (double)var, k2, parts, m, unit);
+    else {
+        const char *bad = NULL; double u = 0, v = 0;
+        if (!rel_close(u = cmb_wtdsummary_mean(mg), v = lm, 1e-11, 1e-300)) bad = "mean";
+        else if (!rel_close(u = cmb_wtdsummary_variance(mg), v = lv, 1e-10, 1e-300)) bad = "variance";
+        else if (!rel_close(u = cmb_wtdsummary_skewness(mg), v = cmb_wtdsummary_skewness(s), 1e-8, 1e-300)) bad = "skewness";
+        else if (!rel_close(u = cmb_wtdsummary_kurtosis(mg), v = cmb_wtdsummary_kurtosis(s), 1e-8, 1e-300)) bad = "kurtosis";
+        if (bad) { char kb[64]; snprintf(kb, sizeof kb, "C17/wtd-merge/%s", bad); vr_violation(kb, "quiet spell of weight 2^%d merged with %zu samples: %s %.15g, sample by sample %.15g", k2, m, bad, u, v); }
+    }
+    VR_CNT("quiet_spells_then_samples");
+    cmb_wtdsummary_destroy(s); cmb_wtdsummary_destroy(a); cmb_wtdsummary_destroy(b); cmb_wtdsummary_destroy(mg);
+    vr_mark_nontrivial();
+}
+
 static void c17_weighted(vr_rng *r)
 {
+    if (vr_chance(r, 1, 8)) { c17_quiet_spell(r); return; }
     int cls = (int)vr_below(r, G_N); size_t n = pick_len(r); if (n > 20000) n = 20000;
     if (cls == G_BIG || cls == G_SMALL || cls == G_OFFSET) cls = G_UNIFORM;
     double *x = malloc((n + 1) * sizeof *x), *w = malloc((n + 1) * sizeof *w); gen_data(r, cls, x, n);
@@ -356,8 +388,44 @@ static void build_ts(vr_rng *r, struct cmb_timeseries *ts, const double *x, size
     free(dur);
 }
 
+/* the same reports made by the main program and by a simulated process on its own (64 KiB) stack, for series long enough that
+ * any per-sample scratch space is many times that stack: the texts must agree */
+static struct { struct cmb_timeseries *ts; char *txt; size_t len; } rep;
+static void rep_make(void)
+{
+    FILE *mf = open_memstream(&rep.txt, &rep.len);
+    fprintf(mf, "median %.17g dataset-median %.17g\n", cmb_timeseries_median(rep.ts), cmb_dataset_median((struct cmb_dataset *)rep.ts));
+    cmb_timeseries_fivenum_print(rep.ts, mf, true); cmb_dataset_fivenum_print((struct cmb_dataset *)rep.ts, mf, true);
+    cmb_timeseries_histogram_print(rep.ts, mf, 10, 0.0, 0.0); cmb_dataset_histogram_print((struct cmb_dataset *)rep.ts, mf, 10, 0.0, 0.0);
+    struct cmb_wtdsummary ws; ws.ds.cookie = 0; cmb_wtdsummary_initialize(&ws); cmb_timeseries_summarize(rep.ts, &ws); cmb_wtdsummary_print(&ws, mf, true);
+    cmb_timeseries_correlogram_print(rep.ts, mf, 12, NULL);
+    fclose(mf);
+}
+static void *rep_body(struct cmb_process *me, void *ctx) { (void)me; (void)ctx; rep_make(); return NULL; }
+static void c18_reports_in_process(vr_rng *r)
+{
+    static const size_t ns[] = { 3000, 8190, 8200, 9000, 16400, 40000, 100000 };
+    size_t n = ns[vr_below(r, 7)] + vr_below(r, 5);
+    struct cmb_timeseries *ts = cmb_timeseries_create(); double t = 0;
+    for (size_t k = 0; k < n; k++) { cmb_timeseries_add(ts, (double)vr_below(r, 9) + (vr_chance(r, 1, 4) ? 0.5 : 0.0), t); t += 0.25 * (double)(1 + vr_below(r, 8)); }
+    cmb_timeseries_finalize(ts, t);
+    rep.ts = ts; rep.txt = NULL; rep_make(); char *outside = rep.txt; rep.txt = NULL;
+    cmb_event_queue_initialize(0.0);
+    struct cmb_process *p = cmb_process_create(); cmb_process_initialize(p, "reporter", rep_body, NULL, 0); cmb_process_start(p);
+    while (cmb_event_execute_next()) { }
+    cmb_process_terminate(p); cmb_process_destroy(p); cmb_event_queue_terminate();
+    if (rep.txt == NULL || strcmp(rep.txt, outside) != 0) {
+        size_t at = 0; if (rep.txt) while (rep.txt[at] && rep.txt[at] == outside[at]) at++;
+        vr_violation("C18/report-in-process", "median, five-number summaries, histograms, summary and correlogram of %zu samples reported by a process differ from the same made by the main program (first difference at character %zu)", n + 1, at);
+    }
+    VR_CNT("report_sets_made_inside_a_process"); VR_MAX("max_samples_reported_inside_a_process", n + 1);
+    free(outside); free(rep.txt); cmb_timeseries_destroy(ts);
+    vr_mark_nontrivial();
+}
+
 static void c18_order(vr_rng *r)
 {
+    if (vr_chance(r, 1, 60)) { c18_reports_in_process(r); return; }
     int cls = (int)vr_below(r, G_N); size_t n = pick_len18(r);
     if (cls == G_BIG || cls == G_SMALL) cls = G_INTS;
     double *x = malloc((n + 2) * sizeof *x); gen_data(r, cls, x, n);
@@ -469,6 +537,18 @@ static void c18_order(vr_rng *r)
             const struct cmb_dataset *ud = (const struct cmb_dataset *)used;
             if (ud->count != m || memcmp(ud->xa, td->xa, m * 8) || memcmp(used->ta, ts->ta, m * 8) || memcmp(used->wa, ts->wa, m * 8)) vr_violation("C18/ts-copy", "copy onto a series in use differs from its source (n=%zu)", m);
             else {
+                /* half of the time the copy is recorded into, past the end of its source's allocation, before anything else */
+                if (vr_chance(r, 1, 2)) {
+                    size_t extra = td->cursize - m + 5; double tl = ts->ta[m - 1]; bool ok = true;
+                    for (size_t k = 0; k < extra; k++) cmb_timeseries_add(used, 3.0 + (double)k, tl + 1.0 + (double)k);      /* ASan watches all three arrays */
+                    if (ud->count != m + extra) ok = false;
+                    for (size_t k = 0; ok && k < m + extra; k++) {
+                        double ex = k < m ? tr[k].x : 3.0 + (double)(k - m), et = k < m ? tr[k].t : tl + 1.0 + (double)(k - m), ew = k + 1 < m ? tr[k].w : k + 1 < m + extra ? 1.0 : 0.0;
+                        if (ud->xa[k] != ex || used->ta[k] != et || used->wa[k] != ew) { ok = false; vr_violation("C18/ts-copy/recorded-into", "a copy made onto a series in use (%zu samples onto %zu), then recorded into for %zu more samples: sample %zu is (%g,%g,%g), expected (%g,%g,%g)", m, j0, extra, k, ud->xa[k], used->ta[k], used->wa[k], ex, et, ew); }
+                    }
+                    if (!ok && vr_nviol == 0) vr_violation("C18/ts-copy/recorded-into", "a copy recorded into has %" PRIu64 " samples, expected %zu", ud->count, m + extra);
+                    VR_CNT("copies_onto_a_series_in_use_recorded_into");
+                }
                 cmb_timeseries_copy(used, empty);
                 if (cmb_timeseries_count(used) != 0) vr_violation("C18/ts-copy", "copy of an empty series onto a series in use leaves %" PRIu64 " samples", cmb_timeseries_count(used));
                 else { for (size_t k = 0; k < 40; k++) cmb_timeseries_add(used, (double)(k % 5), 2.0 * (double)k); cmb_timeseries_finalize(used, 100.0);      /* ASan watches the arrays of the recycled target */
